@@ -8,10 +8,12 @@
    field p = 251 (C10_toy_premises_hold), and for the generator G of secp256k1 the round trip is evaluated
    outright (C10_secp256k1_G_roundtrips).  The acceptance/strictness theorems do not need it.
 
-   DER: the round trip for ALL r, s >= 0 is FALSE in the faithful model (finding der-integer-length-128:
-   encode_integer writes the content length as one raw byte, so 128..255 content bytes are misread as a
-   long-form length and 256+ raise ValueError); the statement is kept, refuted, and proved with the
-   named exclusion `der_oversize` (r or s >= 2^1015) — nothing else is excluded. *)
+   DER: the round trip is proved for every pair r, s >= 0 whose encoding DER can express at all: the
+   signature body must be shorter than 256^127 bytes, the largest length a long-form length field (at
+   most 127 length octets) can announce (`der_expressible`).  This is a limit of the format, not of
+   pycoin, and it is beyond any byte string that can exist (C10_der_roundtrip_addressable: every
+   integer of fewer than 2^64 bytes qualifies).  The former finding der-integer-length-128 is fixed in
+   /repo (encode_integer now uses encode_length) and its exclusion is gone. *)
 From Coq Require Import Znumtheory.
 From PV Require Import Base.Bytes Base.Outcome Gen.GenWifPrefixes Gen.GenCurveC10
   Model.Der Model.Sec Model.Wif Spec.DerStrictSpec Proofs.DerP Proofs.SecP Proofs.WifP.
@@ -19,22 +21,22 @@ Local Open Scope Z_scope.
 
 (* ================================ DER ================================ *)
 
-(* the full statement: every (r, s) with r, s >= 0 encodes and decodes back, in both decoder modes *)
-Definition C10_der_statement : Prop :=
-  forall (r s : Z) (broken : bool), 0 <= r -> 0 <= s ->
+(* every (r, s) with r, s >= 0 encodes and decodes back, in both decoder modes, short- and long-form
+   lengths at both levels (integers and sequence); the only hypothesis is expressibility in DER:
+   nbytes(r) + nbytes(s) + 264 <= 256^127 *)
+Theorem C10_der_roundtrip : forall (r s : Z) (broken : bool),
+  0 <= r -> 0 <= s -> der_expressible r s ->
   exists sig, sigencode_der r s = Ret sig /\ sigdecode_der sig broken = Ret (r, s).
+Proof. exact der_roundtrip. Qed.
+Print Assumptions C10_der_roundtrip.
 
-Theorem C10_der_refuted : ~ C10_der_statement.
-Proof. exact der_statement_refuted. Qed.
-Print Assumptions C10_der_refuted.
-
-(* ... and holds for every pair outside the exclusion (no other size bound; long-form sequence
-   lengths are covered: from 62-byte integers on the sequence header is 30 81 xx / 30 82 xx xx) *)
-Theorem C10_der_roundtrip_partial : forall (r s : Z) (broken : bool),
-  0 <= r -> 0 <= s -> ~ der_oversize r s ->
+(* in particular for every pair of integers that fit in addressable memory (below 2^(2^67), i.e. fewer
+   than 2^64 bytes each) — no other size bound *)
+Theorem C10_der_roundtrip_addressable : forall (r s : Z) (broken : bool),
+  0 <= r -> 0 <= s -> Z.log2 r < 2 ^ 67 -> Z.log2 s < 2 ^ 67 ->
   exists sig, sigencode_der r s = Ret sig /\ sigdecode_der sig broken = Ret (r, s).
-Proof. exact der_roundtrip_partial. Qed.
-Print Assumptions C10_der_roundtrip_partial.
+Proof. exact der_roundtrip_addressable. Qed.
+Print Assumptions C10_der_roundtrip_addressable.
 
 (* strict decoding is prefix-free: whatever blob it accepts (encoder output or not), the same blob
    followed by any non-empty trailing bytes is refused with UnexpectedDER *)
@@ -44,7 +46,7 @@ Proof. exact der_strict_prefix_free. Qed.
 Print Assumptions C10_der_strict_rejects_trailing.
 
 Theorem C10_der_strict_rejects_trailing_after_encoding : forall (r s : Z) (t : bytes),
-  0 <= r < 2 ^ 1015 -> 0 <= s < 2 ^ 1015 -> t <> [] ->
+  0 <= r -> 0 <= s -> der_expressible r s -> t <> [] ->
   exists sig, sigencode_der r s = Ret sig /\ sigdecode_der (sig ++ t) false = Raise E_DER.
 Proof. exact der_trailing_after_encoding. Qed.
 Print Assumptions C10_der_strict_rejects_trailing_after_encoding.
@@ -224,11 +226,13 @@ Example C10_secp256k1_G_roundtrips :
                     | _ => False end).
 Proof. exact k1_g_roundtrips. Qed.
 
-(* DER: the hypotheses of the round trip are met by a 1015-bit integer (127-byte content; the
-   sequence header is then the long form 30 82 xx xx) and by the pair (n-1, n/2) of secp256k1 *)
+(* DER: the hypotheses of the round trip are met by a 255-byte integer (256 content bytes: long-form
+   INTEGER length 02 82 01 00, long-form sequence length) next to the formerly failing 2^1015, and the
+   round trip is evaluated; and by the pair (n-1, n/2) of secp256k1 *)
 Example C10_der_long_form :
-  0 <= 2 ^ 1015 - 1 /\ 0 <= 2 ^ 1000 /\ ~ der_oversize (2 ^ 1015 - 1) (2 ^ 1000) /\
-  (exists sig, sigencode_der (2 ^ 1015 - 1) (2 ^ 1000) = Ret sig /\ (255 < length sig)%nat).
+  0 <= 2 ^ 2040 - 1 /\ 0 <= 2 ^ 1015 /\ Z.log2 (2 ^ 2040 - 1) < 2 ^ 67 /\ Z.log2 (2 ^ 1015) < 2 ^ 67 /\
+  (exists sig, sigencode_der (2 ^ 2040 - 1) (2 ^ 1015) = Ret sig /\ (384 < length sig)%nat /\
+     sigdecode_der sig false = Ret (2 ^ 2040 - 1, 2 ^ 1015)).
 Proof. exact der_long_form_example. Qed.
 
 Example C10_der_lows_k1 :
